@@ -537,7 +537,12 @@ func (fx *FnCtx) evalFrame(env *Env, exprs []SpecExpr, srcs []string) []FrameIte
 				if p.Kind != PObj {
 					fx.fail("modifies %s: not an object pointer", src)
 				}
-				out = append(out, FrameItem{Kind: PObj, Root: p.Root, Ref: p.Ref, Src: src})
+				it := FrameItem{Kind: PObj, Root: p.Root, Ref: p.Ref, Src: src}
+				if p.Off != 0 || !types.Identical(p.Root, p.Typ) {
+					// a pointer to a field of an object: only that field's part of the object
+					it.Off, it.N = p.Off, len(tc.Layout(p.Typ).Leaves)
+				}
+				out = append(out, it)
 				continue
 			}
 			if x.Fun == "lockstate" && len(x.Args) == 1 {
